@@ -1,1 +1,104 @@
-// contract harnesses for trust-runtime/src/eval_stmt (included by the verification hook)
+// Contract harnesses for the private FOR helpers of crates/trust-runtime/src/eval/stmt.rs (C01, C02, C03)
+
+use super::*;
+use crate::error::RuntimeError;
+use crate::value::Value;
+
+// coerce_loop_value(template, n): the control variable keeps the template's type tag and holds n,
+// or the cycle faults with Overflow when n does not fit -- never a value of another type.
+macro_rules! loop_value_signed {
+    ($name:ident, $var:ident, $ty:ty) => {
+        #[kani::proof]
+        fn $name() {
+            let n: i64 = kani::any();
+            let t: $ty = kani::any();
+            let r = coerce_loop_value(&Value::$var(t), n);
+            let fits = n >= <$ty>::MIN as i64 && n <= <$ty>::MAX as i64;
+            let ok = if fits { matches!(&r, Ok(Value::$var(v)) if *v as i64 == n) } else { matches!(&r, Err(RuntimeError::Overflow)) };
+            kani::cover!(fits);
+            std::mem::forget(r);
+            assert!(ok, "FOR control value: same type tag as the control variable, value n, Overflow iff n does not fit");
+        }
+    };
+}
+// @unit id=stmt.loop_value.sint props=C01,C02,C03 tier=quick kind=proof fn=coerce_loop_value
+loop_value_signed!(stmt_loop_value_sint, SInt, i8);
+// @unit id=stmt.loop_value.int props=C01,C02,C03 tier=quick kind=proof fn=coerce_loop_value
+loop_value_signed!(stmt_loop_value_int, Int, i16);
+// @unit id=stmt.loop_value.dint props=C01,C02,C03 tier=quick kind=proof fn=coerce_loop_value
+loop_value_signed!(stmt_loop_value_dint, DInt, i32);
+// @unit id=stmt.loop_value.lint props=C01,C02,C03 tier=quick kind=proof fn=coerce_loop_value
+loop_value_signed!(stmt_loop_value_lint, LInt, i64);
+
+// Unsigned control variable, non-negative n (a negative n is known finding F3: TypeMismatch).
+macro_rules! loop_value_unsigned {
+    ($name:ident, $var:ident, $ty:ty) => {
+        #[kani::proof]
+        fn $name() {
+            let n: i64 = kani::any();
+            kani::assume(n >= 0); // known finding F3 excluded: n < 0 yields the static-class error TypeMismatch
+            let t: $ty = kani::any();
+            let r = coerce_loop_value(&Value::$var(t), n);
+            let fits = (n as u64) <= <$ty>::MAX as u64;
+            let ok = if fits { matches!(&r, Ok(Value::$var(v)) if *v as u64 == n as u64) } else { matches!(&r, Err(RuntimeError::Overflow)) };
+            kani::cover!(fits && n > 0);
+            std::mem::forget(r);
+            assert!(ok, "FOR control value (unsigned): same type tag, value n, Overflow iff n does not fit");
+        }
+    };
+}
+// @unit id=stmt.loop_value.usint props=C01,C02,C03 tier=quick kind=proof fn=coerce_loop_value
+loop_value_unsigned!(stmt_loop_value_usint, USInt, u8);
+// @unit id=stmt.loop_value.uint props=C01,C02,C03 tier=thorough kind=proof fn=coerce_loop_value
+loop_value_unsigned!(stmt_loop_value_uint, UInt, u16);
+// @unit id=stmt.loop_value.udint props=C01,C02,C03 tier=thorough kind=proof fn=coerce_loop_value
+loop_value_unsigned!(stmt_loop_value_udint, UDInt, u32);
+// @unit id=stmt.loop_value.ulint props=C01,C02,C03 tier=quick kind=proof fn=coerce_loop_value
+loop_value_unsigned!(stmt_loop_value_ulint, ULInt, u64);
+
+// witness of known finding F3 (prints KNOWN-FINDING while it is still present)
+// @unit id=stmt.loop_value.F3_witness props=C01 tier=quick kind=proof known=F3-unsigned-negative fn=coerce_loop_value
+#[kani::proof]
+fn stmt_loop_value_f3_witness() {
+    let n: i64 = kani::any();
+    let r = coerce_loop_value(&Value::UInt(0), n);
+    let hit = n < 0 && matches!(&r, Err(RuntimeError::TypeMismatch));
+    std::mem::forget(r);
+    kani::cover!(hit);
+}
+
+// int_value: the FOR bounds are taken at their mathematical value.
+// @unit id=stmt.int_value props=C01,C02 tier=quick kind=proof fn=int_value,is_unsigned_int
+#[kani::proof]
+fn stmt_int_value() {
+    let a: i8 = kani::any();
+    let b: i16 = kani::any();
+    let c: i32 = kani::any();
+    let d: i64 = kani::any();
+    let e: u8 = kani::any();
+    let f: u16 = kani::any();
+    let g: u32 = kani::any();
+    let ok = matches!(int_value(Value::SInt(a)), Ok(v) if v as i128 == a as i128)
+        && matches!(int_value(Value::Int(b)), Ok(v) if v as i128 == b as i128)
+        && matches!(int_value(Value::DInt(c)), Ok(v) if v as i128 == c as i128)
+        && matches!(int_value(Value::LInt(d)), Ok(v) if v as i128 == d as i128)
+        && matches!(int_value(Value::USInt(e)), Ok(v) if v as i128 == e as i128)
+        && matches!(int_value(Value::UInt(f)), Ok(v) if v as i128 == f as i128)
+        && matches!(int_value(Value::UDInt(g)), Ok(v) if v as i128 == g as i128);
+    assert!(ok, "int_value preserves the mathematical value of every integer operand");
+    assert!(is_unsigned_int(&Value::USInt(e)) && is_unsigned_int(&Value::ULInt(0)) && !is_unsigned_int(&Value::LInt(d)) && !is_unsigned_int(&Value::Int(b)));
+    kani::cover!(d < 0);
+}
+
+// ULINT bound: value preserved, or a fault when it does not fit the 64-bit signed loop counter.
+// @unit id=stmt.int_value.ulint props=C01,C02 tier=quick kind=proof fn=int_value
+#[kani::proof]
+fn stmt_int_value_ulint() {
+    let h: u64 = kani::any();
+    let r = int_value(Value::ULInt(h));
+    let ok = if h <= i64::MAX as u64 { matches!(&r, Ok(v) if *v as i128 == h as i128) } else { matches!(&r, Err(RuntimeError::Overflow)) };
+    kani::cover!(h > i64::MAX as u64);
+    kani::cover!(h <= i64::MAX as u64);
+    std::mem::forget(r);
+    assert!(ok, "a ULINT FOR bound is taken at its value, or faults with Overflow -- never silently wrapped to a negative number");
+}
